@@ -310,8 +310,13 @@ func historyProbe(all []pageLine, is *issues, n int) int {
 			is.add("unstable", f.mp, f.dir, a, fmt.Sprintf("after other calls B2P(%#x)=%#x, but %#x when swept alone", a, got, want))
 			return
 		}
-		// a different pak->bus answer is allowed only if it still satisfies the C04 statement
+		// a different pak->bus answer is allowed only if it still satisfies the C04 statement; one that does not also
+		// contradicts C05 ("the class and linear position of every address are those of the documented region table",
+		// in both directions)
 		q, mapped := fromTable(f.b2p, got)
+		if !mapped || (image[f.mi][a/pageSize] && q != a) || pakClassOut(q) != pakClassIn(a) || q%pageSize != a%pageSize {
+			is.add("unstable", f.mp, f.dir, a, fmt.Sprintf("after other calls P2B(%#x)=%#x (B2P of it: %#x mapped=%v), %#x when swept alone", a, got, q, mapped, want))
+		}
 		switch {
 		case !mapped:
 			is.add("c04_collapse", f.mp, "", a, fmt.Sprintf("after other calls P2B(%#x)=%#x which B2P does not map", a, got))
